@@ -677,8 +677,8 @@ fn labelled_cases(thorough: bool, rng: &mut Rng) -> Vec<Case> {
         });
     }
     // ---- regions of listed findings (judged like the others; failures there are expected)
-    // F25: a module-folder file whose directory has no name to strip (`init.luau`, `../init.luau`, `/init.luau`)
-    let f25 = Universe { region: "F25", ..plain.clone() };
+    // (repaired F25) a module-folder file whose directory has no name to strip (`init.luau`, `../init.luau`, `/init.luau`)
+    let f25 = Universe { region: "", ..plain.clone() };
     for source in ["init.luau", "./init.luau", "../init.luau", "/init.luau"] {
         let mut base = walk(&cwd(), source);
         base.pop();
@@ -2041,6 +2041,12 @@ fn check_corpus_entry(report: &mut Report, model: &mut Model, v: &Value, known: 
                 let (real, _) = real_find(&case);
                 let m = model.ask(&case.model_request());
                 report.case(Some(("corpus-find", input.to_string())));
+                // a stored documented answer (witness of a repaired finding) must be met
+                if let Some(right) = input["right_output"].as_str() {
+                    if real != right {
+                        report.violation(Violation { kind: s("oracle"), check: s("corpus/locator-documented-answer"), what: format!("documented `{}`, real `{}`", right, real), input: input.clone(), failing_input_found: true });
+                    }
+                }
                 if real != m {
                     report.violation(Violation { kind: s("correspondence"), check: s("corpus/locator"), what: format!("real `{}` model `{}`", real, m), input: input.clone(), failing_input_found: false });
                 }
